@@ -230,4 +230,256 @@ theorem mrStart_post {α : Type} (f : α → α → α) (e : α) (val : Nat → 
     simp only [reqShards, flatMap_nil, nil_append] at hp
     refine ⟨[], by simpa [reqShards] using hp, rfl, length_pos_iff.mpr hne, rfl⟩
 
+/-! ### Termination of the failover loop -/
+
+def reqW (nodes : List Nat) (r : Req) : Nat :=
+  if nodes.contains r.node then 2 * nodes.length else 2 * nodes.length + 1
+
+def reqTerm (nodes : List Nat) (r : Req) : Nat := r.shards.length * reqW nodes r + 1
+
+/-- Termination measure of the failover loop. -/
+def mrMeasure (nodes : List Nat) (pending : List Req) : Nat := (pending.map (reqTerm nodes)).sum
+
+theorem sum_eraseIdx (f : Req → Nat) (l : List Req) (i : Nat) (h : i < l.length) :
+    ((l.eraseIdx i).map f).sum + f (l.getD i default) = (l.map f).sum := by
+  induction l generalizing i with
+  | nil => simp at h
+  | cons r rest ih =>
+    cases i with
+    | zero => simp; omega
+    | succ i =>
+      simp only [length_cons, Nat.add_lt_add_iff_right] at h
+      have := ih i h
+      simp only [eraseIdx_cons_succ, getD_cons_succ, map_cons, sum_cons]
+      omega
+
+theorem sum_le_sum (f g : Req → Nat) (l : List Req) (h : ∀ q ∈ l, f q ≤ g q) :
+    (l.map f).sum ≤ (l.map g).sum := by
+  induction l with
+  | nil => simp
+  | cons r rest ih =>
+    simp only [map_cons, sum_cons]
+    have := h r (by simp)
+    have := ih (fun q hq => h q (by simp [hq]))
+    omega
+
+theorem addShard_nodes (m : List Req) (n s : Nat) (q : Req) (hq : q ∈ addShard m n s) :
+    q.node = n ∨ ∃ q' ∈ m, q'.node = q.node := by
+  induction m with
+  | nil => simp [addShard] at hq; left; rw [hq]
+  | cons r rest ih =>
+    simp only [addShard] at hq
+    split at hq
+    · rename_i hn
+      rcases mem_cons.mp hq with rfl | hq
+      · left; rfl
+      · right; exact ⟨q, by simp [hq], rfl⟩
+    · rcases mem_cons.mp hq with rfl | hq
+      · right; exact ⟨q, by simp, rfl⟩
+      · rcases ih hq with h | ⟨q', hq', e⟩
+        · left; exact h
+        · right; exact ⟨q', by simp [hq'], e⟩
+
+theorem addShard_length (m : List Req) (n s : Nat) : (addShard m n s).length ≤ m.length + 1 := by
+  induction m with
+  | nil => simp [addShard]
+  | cons r rest ih =>
+    simp only [addShard]
+    split <;> simp only [length_cons] <;> omega
+
+theorem shardsByNode_facts (nodes : List Nat) (owners : Nat → List Nat) (shards : List Nat) :
+    ∀ (m reqs : List Req), shardsByNode nodes owners shards m = some reqs →
+      reqs.length ≤ m.length + shards.length ∧
+      ∀ q ∈ reqs, nodes.contains q.node = true ∨ ∃ q' ∈ m, q'.node = q.node := by
+  induction shards with
+  | nil =>
+    intro m reqs h
+    simp [shardsByNode] at h; subst h
+    exact ⟨by simp, fun q hq => Or.inr ⟨q, hq, rfl⟩⟩
+  | cons s rest ih =>
+    intro m reqs h
+    simp only [shardsByNode] at h
+    split at h
+    · cases h
+    · rename_i n hsome
+      have hlive : nodes.contains n = true := by
+        have := find?_some hsome; simpa using this
+      have ⟨h1, h2⟩ := ih _ _ h
+      have hl := addShard_length m n s
+      refine ⟨by simp only [length_cons]; omega, ?_⟩
+      intro q hq
+      rcases h2 q hq with h | ⟨q', hq', e⟩
+      · exact Or.inl h
+      · rcases addShard_nodes m n s q' hq' with h | ⟨q'', hq'', e'⟩
+        · left; rw [← e, h]; exact hlive
+        · right; exact ⟨q'', hq'', e'.trans e⟩
+
+theorem reqShards_length (l : List Req) : (reqShards l).length = (l.map (·.shards.length)).sum := by
+  induction l with
+  | nil => rfl
+  | cons r rest ih => simp [reqShards_cons, ih]
+
+theorem length_filter_ne_lt (nodes : List Nat) (x : Nat) (h : nodes.contains x = true) :
+    (nodes.filter (fun n => n ≠ x)).length < nodes.length := by
+  have hx : x ∈ nodes := by simpa using h
+  clear h
+  induction nodes with
+  | nil => cases hx
+  | cons a as ih =>
+    have hle := length_filter_le (fun n => decide (n ≠ x)) as
+    simp only [filter_cons]
+    split
+    · rename_i hc
+      have e : a ≠ x := by simpa using hc
+      have hx' : x ∈ as := by
+        rcases mem_cons.mp hx with h | h
+        · exact absurd h.symm e
+        · exact h
+      have := ih hx'
+      simp only [length_cons]
+      omega
+    · simp only [length_cons]
+      omega
+/-- Every response event that leaves the loop running decreases the measure. -/
+theorem mrStep_measure {α : Type} (f : α → α → α) (e : α) (val : Nat → α) (owners : Nat → List Nat)
+    (total : Nat) (s : MRState α) (ev : Nat × Bool) (s' : MRState α)
+    (h : mrStep f e val owners total s ev = .running s') :
+    mrMeasure s'.nodes s'.pending < mrMeasure s.nodes s.pending := by
+  unfold mrStep at h
+  split at h
+  · cases h
+  · rename_i hemp
+    have hne : s.pending ≠ [] := by
+      intro h0; rw [h0] at hemp; simp at hemp
+    have hpos : 0 < s.pending.length := length_pos_iff.mpr hne
+    have hi : ev.1 % s.pending.length < s.pending.length := Nat.mod_lt _ hpos
+    simp only at h
+    generalize hreq : s.pending.getD (ev.1 % s.pending.length) default = req at h
+    have hsum := sum_eraseIdx (reqTerm s.nodes) s.pending _ hi
+    rw [hreq] at hsum
+    split at h
+    · split at h
+      · cases h
+      · cases h
+        simp only [mrMeasure]
+        have : reqTerm s.nodes req ≥ 1 := by unfold reqTerm; omega
+        omega
+    · split at h
+      · cases h
+      · rename_i reqs hsome
+        cases h
+        simp only [mrMeasure, map_append, sum_append]
+        have ⟨hlen, hlive⟩ := shardsByNode_facts _ owners req.shards [] reqs hsome
+        have hp := (shardsByNode_perm _ owners req.shards [] reqs hsome).length_eq
+        simp only [reqShards, flatMap_nil, nil_append] at hp
+        have hp' : (reqs.map (·.shards.length)).sum = req.shards.length := by
+          rw [← reqShards_length]; exact hp
+        simp only [length_nil, Nat.zero_add] at hlen
+        have hfl := fun (h2 : s.nodes.contains req.node = true) => length_filter_ne_lt s.nodes req.node h2
+        have hn'le : (s.nodes.filter (fun n => n ≠ req.node)).length ≤ s.nodes.length := length_filter_le _ _
+        generalize hn' : s.nodes.filter (fun n => n ≠ req.node) = nodes' at *
+        have hsub : ∀ x, nodes'.contains x = true → s.nodes.contains x = true ∧ x ≠ req.node := by
+          intro x hx
+          rw [← hn'] at hx
+          have := mem_filter.mp (by simpa using hx : x ∈ s.nodes.filter (fun n => n ≠ req.node))
+          exact ⟨by simpa using this.1, by simpa using this.2⟩
+        have hsup : ∀ x, s.nodes.contains x = true → x ≠ req.node → nodes'.contains x = true := by
+          intro x hx hne'
+          rw [← hn']
+          have hm : x ∈ s.nodes := by simpa using hx
+          have : x ∈ s.nodes.filter (fun n => n ≠ req.node) := mem_filter.mpr ⟨hm, by simpa using hne'⟩
+          simpa using this
+        have hmono : ∀ q, reqW nodes' q ≤ reqW s.nodes q := by
+          intro q
+          unfold reqW
+          by_cases h1 : nodes'.contains q.node = true
+          · have := (hsub _ h1).1
+            rw [if_pos h1, if_pos this]; omega
+          · by_cases h2 : s.nodes.contains q.node = true
+            · have hq : q.node = req.node := by
+                apply Classical.byContradiction
+                intro hne'; exact h1 (hsup _ h2 hne')
+              have := hfl (hq ▸ h2)
+              rw [if_neg h1, if_pos h2]; omega
+            · rw [if_neg h1, if_neg h2]; omega
+        have hreqW : reqW s.nodes req ≥ 2 * nodes'.length + 1 := by
+          unfold reqW
+          by_cases h2 : s.nodes.contains req.node = true
+          · have := hfl h2
+            rw [if_pos h2]; omega
+          · rw [if_neg h2]; omega
+        have hnew : (reqs.map (reqTerm nodes')).sum = req.shards.length * (2 * nodes'.length) + reqs.length := by
+          have hq1 : ∀ q ∈ reqs, reqTerm nodes' q = q.shards.length * (2 * nodes'.length) + 1 := by
+            intro q hq
+            rcases hlive q hq with h | ⟨q', hq', _⟩
+            · unfold reqTerm reqW; rw [if_pos h]
+            · cases hq'
+          rw [← hp']
+          clear hp' hlen hlive hsome hp
+          induction reqs with
+          | nil => simp
+          | cons q qs ih =>
+            simp only [map_cons, sum_cons, length_cons]
+            rw [hq1 q (by simp), ih (fun q' hq' => hq1 q' (by simp [hq']))]
+            rw [Nat.add_mul]; omega
+        have hold := sum_le_sum (reqTerm nodes') (reqTerm s.nodes)
+          (s.pending.eraseIdx (ev.1 % s.pending.length))
+          (fun q _ => by unfold reqTerm; exact Nat.add_le_add_right (Nat.mul_le_mul_left _ (hmono q)) 1)
+        have hterm : reqTerm s.nodes req ≥ req.shards.length * (2 * nodes'.length + 1) + 1 := by
+          unfold reqTerm
+          exact Nat.add_le_add_right (Nat.mul_le_mul_left _ hreqW) 1
+        rw [hnew]
+        rw [Nat.mul_add, Nat.mul_one] at hterm
+        omega
+
+/-- After more response events than the measure of a loop state, the loop is no longer running. -/
+theorem mrRun_terminates {α : Type} (f : α → α → α) (e : α) (val : Nat → α) (owners : Nat → List Nat)
+    (total : Nat) (evs : List (Nat × Bool)) :
+    ∀ (s : MRState α), mrMeasure s.nodes s.pending < evs.length →
+      ∀ s', mrRun f e val owners total (.running s) evs ≠ .running s' := by
+  induction evs with
+  | nil => intro s h; simp at h
+  | cons ev evs ih =>
+    intro s h s'
+    simp only [mrRun]
+    cases hstep : mrStep f e val owners total s ev with
+    | running s1 =>
+      have := mrStep_measure f e val owners total s ev s1 hstep
+      simp only [length_cons] at h
+      exact ih s1 (by omega) s'
+    | done a => cases evs <;> simp [mrRun]
+    | unavailable => cases evs <;> simp [mrRun]
+    | hang => cases evs <;> simp [mrRun]
+
+
+theorem sum_reqTerm_live (nodes : List Nat) (reqs : List Req)
+    (hlive : ∀ q ∈ reqs, nodes.contains q.node = true) :
+    (reqs.map (reqTerm nodes)).sum
+      = (reqs.map (·.shards.length)).sum * (2 * nodes.length) + reqs.length := by
+  induction reqs with
+  | nil => simp
+  | cons q qs ih =>
+    simp only [map_cons, sum_cons, length_cons]
+    rw [ih (fun q' hq' => hlive q' (by simp [hq']))]
+    have : reqTerm nodes q = q.shards.length * (2 * nodes.length) + 1 := by
+      unfold reqTerm reqW; rw [if_pos (hlive q (by simp))]
+    rw [this, Nat.add_mul]; omega
+
+/-- The measure of the state after the first `mapper` call. -/
+theorem mrMeasure_start_le (nodes : List Nat) (owners : Nat → List Nat) (shards : List Nat)
+    (reqs : List Req) (h : shardsByNode nodes owners shards [] = some reqs) :
+    mrMeasure nodes reqs ≤ shards.length * (2 * nodes.length + 1) := by
+  have ⟨hlen, hlive⟩ := shardsByNode_facts nodes owners shards [] reqs h
+  have hp := (shardsByNode_perm nodes owners shards [] reqs h).length_eq
+  simp only [reqShards, flatMap_nil, nil_append] at hp
+  have hp' : (reqs.map (·.shards.length)).sum = shards.length := by
+    rw [← reqShards_length]; exact hp
+  simp only [length_nil, Nat.zero_add] at hlen
+  unfold mrMeasure
+  rw [sum_reqTerm_live nodes reqs (fun q hq => by
+    rcases hlive q hq with h | ⟨q', hq', _⟩
+    · exact h
+    · cases hq'), hp', Nat.mul_add, Nat.mul_one]
+  omega
+
 end PV.C17
